@@ -34,6 +34,7 @@ from pyvc import vc
 from pyvc.framework import run_property
 from pyvc.interp import Interp, Obj, ClassV, Builtin, PyRaise, Unsupported, ExcV, FuncV
 from contracts.common import *
+from cvc import oblig
 from contracts.evalharness import ufn, abstract_feature_list, abstract_evaluator
 from contracts.planharness import make_settings, make_plan
 
@@ -664,12 +665,64 @@ def unit_generator_cache_frames(version, level):
     return run
 
 
+def unit_c_defines_output(rel, fn, out):
+    """Scratch / output arrays that the Python callers allocate with np.empty and reuse across the density matrices of a batch (EXXSphGenerator.get_features:
+    tmp, b0) must be DEFINED by the C routine: every accumulating store is preceded, in the same worksharing iteration, by an overwriting store of the same
+    element over the same range — otherwise the result for one density matrix depends on what the previous one left behind."""
+    def run(ctx):
+        from cvc import cparse
+        from cvc.csym import CSym, CUnsupported
+        from contracts import c10
+        from pyvc.nf import NF, NFError
+        fq = ["lib/%s:%s" % (rel, fn)]
+        tu = cparse.load(rel)
+        sy = CSym([tu] + [cparse.load(h) for h in c10.HELPER_TUS if h != rel], footprint=True)
+        args = {p_: c10.mk_value(tu, ty, p_) for p_, ty in tu.params(fn)}
+        sy.hyps = c10.nonneg_hyps(args)
+        try:
+            sy.run(fn, args)
+        except CUnsupported as e:
+            ctx.undecided("%s summarised" % fn, str(e)[:200], fq)
+            return
+        nfc = NF()
+        ws = [e for e in sy.events if e.kind == "w" and e.arr.name == out]
+        acc = [e for e in ws if e.op != "="]
+        sets = [e for e in ws if e.op == "="]
+        ctx.holds("%s writes %s" % (fn, out), len(ws) > 0, "", fq)
+        for k, a in enumerate(oblig._dedupe_l(acc)):
+            ok = False
+            for s_ in sets:
+                if s_.seq > a.seq or s_.par is not a.par or not s_.qvars or not a.qvars:
+                    continue
+                (gs, los, his, _), (ga, loa, hia, _) = s_.qvars[-1], a.qvars[-1]
+                def eq_(x, y):
+                    x, y = tm.lift(x), tm.lift(y)
+                    if x is y:
+                        return True
+                    try:
+                        return nfc.equal(x, y)
+                    except NFError:
+                        return False
+                same_rng = eq_(los, loa) and eq_(tm.substitute(tm.lift(his), {gs: ga}), hia)
+                same_idx = eq_(tm.substitute(tm.lift(s_.idx), {gs: ga}), a.idx)
+                # the overwriting store must not sit under a condition the accumulation is free of
+                if same_rng and same_idx and len(s_.guards) <= len(a.guards):
+                    ok = True
+                    break
+            ctx.holds("%s: accumulation #%d into %s[%s] starts from an element the routine itself has just overwritten (stale contents cannot survive)" % (fn, k, out, tm.show(a.idx, 50)),
+                      ok, "no preceding overwriting store of the same element in the same iteration", fq)
+    return run
+
+
 def units():
     u = [("frames/settings", unit_frames_settings), ("frames/maps", unit_frames_maps)]
     for version, level in (("ij", "MGGA"), ("i", "GGA"), ("j", "MGGA"), ("k", "MGGA")):
         u.append(("plan/%s/%s" % (version, level), unit_frames_plan(version, level)))
     for version in ("j", "ij"):
         u.append(("generator-cache/%s" % version, unit_generator_cache_frames(version, "MGGA")))
+    for rel, fn, out in (("mod_cider/fast_sdmx.c", "contract_shl_to_alpha_l1", "p"), ("mod_cider/fast_sdmx.c", "SDMXcontract_ao_to_bas", "vbas"),
+                         ("mod_cider/fast_sdmx.c", "SDMXcontract_ao_to_bas_grid", "vbas")):
+        u.append(("c-defines-output/" + fn, unit_c_defines_output(rel, fn, out)))
     for N in (1999, 2000, 2001, 4001):
         u.append(("chunk/N%d" % N, unit_chunking(N)))
     for fn in ("nr_rks", "nr_uks", "nr_rks_nldf", "nr_uks_nldf"):
